@@ -5,6 +5,7 @@ from fractions import Fraction as Fr
 
 import numpy as np
 
+import adevprog as AP
 import common
 import impl
 import sexp
@@ -14,6 +15,11 @@ RULE = ("expectation programs with 1-3 ADEV sites (flip_enum, flip_enum_parallel
         "sites, parameter values in the open domain: jvp_estimate evaluated for EVERY outcome of the discrete sites (the primitives' internal "
         "flip sampler swapped for a scripted twin); outcome-weighted mean of value and tangent vs the closed-form expectation and its derivative; "
         "per-outcome estimator duals vs the Lean model; reparameterised sites vs jax.jvp of the sampled path; seed/jit agreement; "
+        "DESCRIBED programs (harness/adevprog.py: one description -> the JAX function and the Lean driver term; 1-3 flip / categorical sites, "
+        "estimators enum / enum_par / reinforce / mvd mixed, where / lax.cond / sites inside lax.cond branches): every internal outcome path of "
+        "jvp_estimate (dual-mode draws, the forward-sampled pure continuation of flip_mvd, the vectorised continuations of the parallel "
+        "enumerations) as a distribution of (probability, value, tangent) vs the model's Prog.est, weighted means vs Prog.exact and vs a "
+        "brute-force sum over site outcomes; "
         "non-trivial = every (program, theta); distinct by program/theta")
 
 
@@ -249,6 +255,99 @@ def fq(x):
     return Fr(float(x)).limit_denominator(10 ** 9)
 
 
+# ----------------------------------------------------------------------------- described programs: implementation vs AdevProg model
+
+TH = "th"
+HALF = Fr(1, 2)
+
+
+def _mul(*ts):
+    r = ts[0]
+    for t in ts[1:]:
+        r = ("*", r, t)
+    return r
+
+
+def described_programs(thorough):
+    """name -> description (harness/adevprog.py).  The first three families are the programs of `programs()` above
+    (one_site, where_site, two_sites) written as data; the rest are 3-site programs mixing estimators and a categorical."""
+    D = {}
+    for e in ("enum", "enum_par", "reinforce", "mvd"):
+        D["one-site:" + e] = ("flip", e, TH, ("ret", ("cond", 0, _mul(TH, TH), _mul(3, TH))))
+    for e in ("enum", "mvd", "reinforce"):
+        D["where:" + e] = ("flip", e, ("+", _mul(HALF, TH), Fr(1, 4)), ("ret", ("if", 0, ("sin_th",), _mul(2, TH, TH))))
+    q2 = ("if", 0, _mul(HALF, TH), ("-", 1, _mul(HALF, TH)))
+    ret2 = ("ret", ("+", ("*", ("if", 0, 1, 2), ("if", 1, TH, ("neg", _mul(TH, TH)))), TH))
+    for e1, e2 in (("reinforce", "mvd"), ("enum", "reinforce"), ("mvd", "enum"), ("reinforce", "reinforce"), ("mvd", "mvd"), ("enum_par", "mvd"),
+                   ("mvd", "reinforce"), ("enum_par", "reinforce")):
+        D[f"two-sites:{e1}+{e2}"] = ("flip", e1, TH, ("flip", e2, q2, ret2))
+    # three sites; every later parameter depends on earlier outcomes, the result on all outcomes and (non-linearly) on theta
+    q3 = ("if", 1, TH, ("/", ("+", 1, TH), 4))
+    ret3 = ("ret", ("+", _mul(("+", ("o", 0), 1), ("if", 1, TH, _mul(TH, TH)), ("if", 2, 2, ("neg", TH))), ("/", ("o", 1), ("+", 1, TH))))
+    D["three:reinforce>mvd>enum"] = ("flip", "reinforce", TH, ("flip", "mvd", q2, ("flip", "enum", q3, ret3)))
+    D["three:mvd>reinforce>mvd"] = ("flip", "mvd", ("-", 1, _mul(HALF, TH)), ("flip", "reinforce", q2, ("flip", "mvd", q3, ret3)))
+    w3 = [_mul(HALF, TH), Fr(1, 4), ("-", Fr(3, 4), _mul(HALF, TH))]                       # normalised weights
+    w3u = [TH, ("if", 0, 1, 2), ("-", 2, TH)]                                               # unnormalised, depend on outcome 0
+    qc = ("eq", 1, 0, _mul(HALF, TH), ("eq", 1, 1, TH, ("-", 1, TH)))
+    retc = ("ret", ("+", _mul(("+", ("o", 1), ("if", 0, 1, 3)), ("if", 2, TH, _mul(TH, TH))), ("o", 0)))
+    D["three:reinforce>cat3par>mvd"] = ("flip", "reinforce", TH, ("cat", "enum_par", w3u, ("flip", "mvd", qc, retc)))
+    D["three:enum>cat3rf>mvd"] = ("flip", "enum", TH, ("cat", "reinforce", w3u, ("flip", "mvd", qc, retc)))
+    retd = ("ret", _mul(("+", ("o", 0), ("if", 1, 1, 3)), ("if", 2, TH, ("/", TH, ("+", 1, TH)))))
+    D["three:cat3par>reinforce>enum"] = ("cat", "enum_par", w3, ("flip", "reinforce", ("eq", 0, 2, TH, _mul(HALF, TH)), ("flip", "enum", q3, retd)))
+    # sites inside lax.cond branches (different sites follow depending on an earlier outcome: a tree, not a straight line)
+    D["branch:reinforce>(mvd|ret)"] = ("flip", "reinforce", TH, ("branch", 0, ("flip", "mvd", _mul(HALF, TH), ("ret", ("if", 1, TH, 2))), ("ret", _mul(TH, TH))))
+    D["branch:enum>(cat3rf|mvd)"] = ("flip", "enum", TH, ("branch", 0, ("cat", "reinforce", w3, ("ret", _mul(("+", ("o", 1), 1), TH))),
+                                                          ("flip", "mvd", q2, ("ret", ("if", 1, _mul(TH, TH), ("neg", TH))))))
+    if thorough:
+        D["three:mvd>cat3par>reinforce"] = ("flip", "mvd", TH, ("cat", "enum_par", w3, ("flip", "reinforce", qc, retc)))
+        D["three:mvd>mvd>mvd"] = ("flip", "mvd", TH, ("flip", "mvd", q2, ("flip", "mvd", q3, ret3)))
+        D["three:enum_par>mvd>reinforce"] = ("flip", "enum_par", TH, ("flip", "mvd", q2, ("flip", "reinforce", q3, ret3)))
+    return D
+
+
+def check_described(G, A, ctx, name, prog, theta, table=None):
+    """one described program at one theta: the implementation's internal outcome paths vs the model's estimator
+    distribution (a), the weighted means vs the model's exact dual and an independent brute-force sum (b)"""
+    case = {"kind": "adev-described", "program": name, "theta": theta, "sites": AP.sites_of(prog)}
+    m = AP.model_report(prog, Fr(theta))
+    case["driver_line"] = m["line"]
+    if not m["guards"] or m["mass"] != 1 or m["mean"] != m["exact"]:
+        raise common.Infra(f"described program {name} at theta={theta}: model guards={m['guards']} mass={m['mass']} mean={m['mean']} exact={m['exact']}"
+                           " (a description must keep every probability in (0,1))")
+    want_v, want_d = float(m["exact"][0]), float(m["exact"][1])
+    tol = 2e-4 * (1 + abs(want_d) + abs(want_v))
+    bf_v, bf_d = AP.brute_force(prog, theta)
+    case.update({"exact_value": want_v, "exact_derivative": want_d, "brute_force": [bf_v, bf_d], "model_paths": m["paths"], "model_outcomes": len(m["est"])})
+    if abs(bf_v - want_v) > tol or abs(bf_d - want_d) > tol:
+        ctx.correspondence_break("AdevProg.exact vs brute-force expectation", f"{name} at theta={theta}: model ({want_v},{want_d}) brute force ({bf_v},{bf_d})", case)
+    try:
+        paths = AP.enumerate_paths(A, AP.build(A, prog, table), theta)
+    except Exception as ex:
+        impl.reset_handlers()
+        ctx.property_failure(None, f"{name}: jvp_estimate raised {type(ex).__name__}: {str(ex)[:200]}", case)
+        return
+    tot_w = sum(w for _, w, _, _ in paths)
+    mean_v = sum(w * v for _, w, v, _ in paths)
+    mean_d = sum(w * t for _, w, _, t in paths)
+    case.update({"internal_outcomes": len(paths), "total_weight": tot_w, "mean_value": mean_v, "mean_tangent": mean_d,
+                 "per_outcome": [[o, w, v, t] for o, w, v, t in paths[:8]]})
+    if abs(tot_w - 1.0) > 1e-5:
+        ctx.correspondence_break("exhaustive exploration of internal draws", f"{name}: weights sum to {tot_w}", case)
+    # (a) distribution of the returned dual, entry by entry
+    problems, groups = AP.match_distribution(paths, m["est"], lambda v, t: 2e-4 * (1 + abs(v) + abs(t)))
+    if problems:
+        case["distribution_mismatch"] = problems[:6]
+        ctx.correspondence_break("AdevProg.est vs jvp_estimate", f"{name} at theta={theta}: " + "; ".join(problems[:3]), case)
+    # (b) weighted means vs the exact expectation and derivative
+    if abs(mean_v - want_v) > tol or abs(mean_v - bf_v) > tol:
+        ctx.property_failure(None, f"{name} [{' > '.join(case['sites'])}] at theta={theta}: outcome-weighted mean of estimate {mean_v} != E[f] = {want_v}", case)
+    if abs(mean_d - want_d) > tol or abs(mean_d - bf_d) > tol:
+        ctx.property_failure(None, f"{name} [{' > '.join(case['sites'])}] at theta={theta}: outcome-weighted mean of the tangent {mean_d} != d/dtheta E[f] = {want_d}", case)
+    ctx.case(sample={k: case[k] for k in ("kind", "program", "theta", "internal_outcomes", "model_outcomes", "mean_tangent", "exact_derivative")}
+             if name.startswith("three") and ctx.coverage["evaluations"] % 4 == 0 else None, nontrivial_key=("described", name, theta))
+    ctx.count("described:" + name.split(":")[0])
+
+
 def extra_checks(G, A, ctx):
     """categorical enumeration, batched (lane) sites, reparam pathwise identity, seed/jit agreement"""
     import jax
@@ -361,6 +460,16 @@ def run(ctx, audit):
         if spec.get("mk") and (needs_mc(name, spec) or ctx.thorough):
             check_program_mc(G, A, ctx, name, spec, thetas[1], 20000 if ctx.thorough else 4000)
     extra_checks(G, A, ctx)
+    # described programs: the same description run on the implementation and on the Lean model
+    table = AP.estimator_table(A)
+    D = described_programs(ctx.thorough)
+    if not ctx.thorough:        # quick tier: a seed-dependent part of the slow (lax.cond: one XLA compilation per run) families, one theta each
+        drop = ctx.rng.sample([n for n in D if n.startswith("one-site")], 2) + ctx.rng.sample([n for n in D if n.startswith("branch")], 1)
+        D = {n: p for n, p in D.items() if n not in drop}
+    for name, prog in D.items():
+        big = AP.model_report(prog, Fr(thetas[0]))["paths"] > 40          # thorough tier: programs with many internal paths at two thetas only
+        for th in ((ctx.rng.sample(thetas, 2) if big else thetas) if ctx.thorough else [ctx.rng.choice(thetas)]):
+            check_described(G, A, ctx, name, prog, th, table)
     return {"rule": RULE}
 
 
@@ -370,12 +479,16 @@ def replay(ctx, payload):
     c = payload.get("case") or {}
     if c.get("kind") == "adev-program":
         check_program(G, A, ctx, c["program"], programs(G, A)[c["program"]], c["theta"])
+    elif c.get("kind") == "adev-described":
+        check_described(G, A, ctx, c["program"], described_programs(True)[c["program"]], c["theta"])
     elif c.get("kind") == "adev-program-mc":
         check_program_mc(G, A, ctx, c["program"], programs(G, A)[c["program"]], c["theta"], c["keys"])
     else:
         extra_checks(G, A, ctx)
     for i in ctx.issues:
         print("REPRODUCED:", i["what"])
-    if not ctx.issues:
+    for i in ctx.corr_breaks:
+        print("REPRODUCED (model/implementation disagreement):", i["name"], "-", i["what"])
+    if not ctx.issues and not ctx.corr_breaks:
         print("not reproduced")
-    return 1 if ctx.issues else 0
+    return 1 if (ctx.issues or ctx.corr_breaks) else 0
